@@ -876,21 +876,42 @@ func (e *Env) call(n *CCall) Val {
 		}
 		return e.mk(app("spec_"+n.Fun, args...), rt)
 	}
-	if (n.Fun == "as" || n.Fun == "is") && len(n.Args) == 2 {
-		// is(x, *T): the interface value x holds a *T;  as(x, *T): the pointer it holds (meaningful when is(x, *T))
+	if n.Fun == "box" && len(n.Args) == 1 {
+		// box(p): the interface value holding the pointer p (what passing p to an interface-typed parameter builds)
+		v := e.tr(n.Args[0])
+		if v.Sort != "Addr" || v.T == nil {
+			cfail("box(): a typed pointer is expected")
+		}
+		return Val{S: app("iface", fmt.Sprint(e.w.typeID(v.T)), "0", v.S), Sort: "Iface", T: types.NewInterfaceType(nil, nil)}
+	}
+	if (n.Fun == "as" || n.Fun == "is" || n.Fun == "unbox") && len(n.Args) == 2 {
+		// is(x, T): the interface value x holds a T;  as(x, *T): the pointer it holds;  unbox(x, T): the (non-pointer)
+		// value it holds - both meaningful when is(x, T)
 		v := e.tr(n.Args[0])
 		if v.Sort != "Iface" {
 			cfail("%s(): first argument is not an interface value", n.Fun)
 		}
-		u, isPtr := n.Args[1].(*CUnary)
-		if !isPtr || u.Op != "*" {
-			cfail("%s(x, *T): only pointer types are supported", n.Fun)
+		var ty types.Type
+		if u, isPtr := n.Args[1].(*CUnary); isPtr && u.Op == "*" {
+			ty = types.NewPointer(e.w.resolveType(e.pkg, typeNameOf(u.X)))
+		} else {
+			ty = e.w.resolveType(e.pkg, typeNameOf(n.Args[1]))
 		}
-		pt := types.NewPointer(e.w.resolveType(e.pkg, typeNameOf(u.X)))
-		if n.Fun == "is" {
-			return boolV(sand(snot(app("=", v.S, "inil")), app("=", app("tid", v.S), fmt.Sprint(e.w.typeID(pt)))))
+		_, isPtr := ty.Underlying().(*types.Pointer)
+		switch n.Fun {
+		case "is":
+			return boolV(sand(snot(app("=", v.S, "inil")), app("=", app("tid", v.S), fmt.Sprint(e.w.typeID(ty)))))
+		case "as":
+			if !isPtr {
+				cfail("as(x, *T): a pointer type is expected (use unbox for values)")
+			}
+			return Val{S: app("iref", v.S), Sort: "Addr", T: ty}
+		default:
+			if isPtr || e.st == nil {
+				cfail("unbox(x, T): a non-pointer type and a heap context are expected")
+			}
+			return e.mkHeap(e.w.heapLoad(e.st, app("iref", v.S), ty), ty)
 		}
-		return Val{S: app("iref", v.S), Sort: "Addr", T: pt}
 	}
 	if n.Fun == "mk" && len(n.Args) >= 1 {
 		// mk(Type, field values...): struct value
